@@ -11,4 +11,7 @@ AtomsChain == {A(1, 1, 2, 1), A(2, 2, 3, 1), A(3, 3, 0, 1), A(4, 0, 1, -5), A(5,
 \* two constraints on the same ordered pair asserted at nested levels (the tighter one deeper), a path through that pair
 \* which decides a fourth constraint: after the pop the pair must be enforced (and explained) by the looser one again
 AtomsUndo == {A(1, 0, 1, 2), A(2, 0, 1, 0), A(3, 1, 2, 1), A(4, 2, 0, -4)}
+\* ties: the negation of a constraint tightens the opposite distance by exactly the smallest step (1 / the infinitesimal)
+\* when that distance already equals the bound, and a constraint that is decided by a distance equal to its bound
+AtomsTie == {A(1, 0, 1, 2), A(2, 1, 0, -2), A(3, 1, 2, 1), A(4, 2, 1, -1), A(5, 0, 2, 3)}
 =============================================================================
